@@ -236,14 +236,25 @@ pub fn forge<L: LayoutTrait + GenericLayoutTrait>(
         }
         v
     };
-    let t_orig = Table::build(kind, p.nvf, log_eval as u64, n1, rows(&lde[..n1]));
-    let t_int = Table::build(kind, p.nvf, log_eval as u64, n2, rows(&lde[n1..]));
-    let t_comp = Table::build(kind, p.nvf, log_eval as u64, 2, rows(&hlde));
+    // S2 with v/3 odd: the trace and composition trees are declared (and padded with zero rows) for the
+    // same enlarged domain as FRI, so that every declared height agrees with the FRI input size
+    let tree_extra: u32 = match strat {
+        Attack::S2FriDomain(v) if (*v / 3) % 2 == 1 && log_eval + p.c.max(1) <= 17 => p.c.max(1),
+        _ => 0,
+    };
+    let th = (log_eval + tree_extra) as u64;
+    let padded = |mut v: Vec<Felt>, cols: usize| -> Vec<Felt> {
+        v.resize(cols << th, Felt::ZERO);
+        v
+    };
+    let t_orig = Table::build(kind, p.nvf, th, n1, padded(rows(&lde[..n1]), n1));
+    let t_int = Table::build(kind, p.nvf, th, n2, padded(rows(&lde[n1..]), n2));
+    let t_comp = Table::build(kind, p.nvf, th, 2, padded(rows(&hlde), 2));
     // (2) transcript: traces commit through the layout's own function (typed interaction elements)
     let nvf_f = Felt::from(p.nvf);
     let digest = pi.get_hash(nvf_f);
     let mut tr = Transcript::new(digest);
-    let traces_cfg = trace::config::Config { original: tcfg(n1 as u64, log_eval as u64, p.nvf), interaction: tcfg(n2 as u64, log_eval as u64, p.nvf) };
+    let traces_cfg = trace::config::Config { original: tcfg(n1 as u64, th, p.nvf), interaction: tcfg(n2 as u64, th, p.nvf) };
     let unsent_traces = trace::UnsentCommitment { original: t_orig.tree.root(), interaction: t_int.tree.root() };
     let tc = L::traces_commit(&mut tr, &unsent_traces, traces_cfg.clone());
     let counter = big(tr.counter()).iter_u64_digits().next().unwrap_or(0);
@@ -289,7 +300,8 @@ pub fn forge<L: LayoutTrait + GenericLayoutTrait>(
             }
         }
         Attack::S5Lie(nl) | Attack::S2FriDomain(nl) | Attack::S3ModularBlowup(nl) => {
-            for i in 0..(*nl as usize).min(m) {
+            let nl = if matches!(strat, Attack::S2FriDomain(_)) { *nl % 3 } else { *nl };
+            for i in 0..(nl as usize).min(m) {
                 let k = (prf_u64(p.seed ^ 0x53, i as u64) % m as u64) as usize;
                 mask[k] += prf_felt(p.seed ^ 0x54, i as u64);
             }
@@ -451,7 +463,7 @@ pub fn forge<L: LayoutTrait + GenericLayoutTrait>(
     };
     let config = StarkConfig {
         traces: traces_cfg,
-        composition: tcfg(2, log_eval as u64, p.nvf),
+        composition: tcfg(2, th, p.nvf),
         fri: fri_cfg.clone(),
         proof_of_work: swiftness_pow::config::Config { n_bits: p.pow_bits },
         log_trace_domain_size: Felt::from(t as u64),
